@@ -758,7 +758,7 @@ Fixpoint find_nl (k : nat) (l : bytes) (acc : bytes) : option (bytes * bytes) :=
   end.
 
 Definition strip_cr (l : bytes) : bytes :=
-  match rev l with 13 :: r => rev r | _ => l end.
+  match rev l with x :: r => if x =? 13 then rev r else l | [] => l end.
 
 Definition read_line (r : bytes) : option (bytes * bool * bytes) :=
   match r with
@@ -771,8 +771,10 @@ Definition read_line (r : bytes) : option (bytes * bool * bytes) :=
           else
             let piece := firstn armor_bufsize r in
             match rev piece with
-            | 13 :: p' => Some (rev p', true, skipn (pred armor_bufsize) r)
-            | _ => Some (piece, true, skipn armor_bufsize r)
+            | c :: p' =>
+                if c =? 13 then Some (rev p', true, skipn (pred armor_bufsize) r)
+                else Some (piece, true, skipn armor_bufsize r)
+            | [] => Some (piece, true, skipn armor_bufsize r)
             end
       end
   end.
